@@ -720,6 +720,20 @@ static long do_call(jv *c, jv **extra)
     *extra = x;
     return r;
   }
+  /* changes the CALLER makes to its own process between library calls (the library must not remember the old state) */
+  if (!strcmp(fn, "pchdir")) { K->proc[0].cwd = sk_str(j_str(c, "dir", "/")); K->cwdlen_override = 0; return 0; }
+  if (!strcmp(fn, "psetenv")) { environ = (char **) strarr(j_get(c, "env")); return 0; }
+  if (!strcmp(fn, "plimit")) {
+    K->rlimit_nofile = (int) j_int(c, "limit", 64);
+    jv *op = j_get(c, "open");
+    if (op) for (int i = 0; i < op->n; i++) {
+      int fd = (int) op->a[i]->i;
+      int o = sk_new_obj(OK_TTY, 0);
+      char nm[16]; snprintf(nm, sizeof nm, "o%d", fd); objname_cfg[o] = keep(nm);
+      sk_install(0, fd, o, 2, 0, 0);
+    }
+    return 0;
+  }
   if (!strcmp(fn, "strerror")) {
     K->in_api = 1; const char *s = reproc_strerror((int) j_int(c, "err", 0)); K->in_api = 0;
     jv *x = j_mkobj(); j_put(x, "text", j_mkstr(s ? s : "(null)")); *extra = x;
